@@ -24,7 +24,7 @@ type c01Case struct {
 func init() {
 	engine.Register(&engine.Check{
 		ID: "C01", Level: "exploration",
-		Rule: "every shape of the universe U (7 types x layouts XY,XYZ,XYM,XYZM,Layout(5),Layout(7) + NoLayout empties; part sizes 0..2, <=3 parts, <=3 (quick 2) polygons of <=2 rings) built by SetCoords, by New*Flat from the model's own flattening, by Push and (points) by NewPointFlatMaybeEmpty, plus Clone; special-float sweep (9 values x every ordinate position); every single-coordinate length mismatch (stride-1, stride+1, 0, nil) at every position. distinct_nontrivial = distinct (model, mode, mismatch) cases with at least one coordinate or one part",
+		Rule: "every shape of the universe U (7 types x layouts XY,XYZ,XYM,XYZM,Layout(5),Layout(7) + NoLayout empties; part sizes 0..2, <=3 parts, <=3 (quick 2) polygons of <=2 rings) built by SetCoords, by New*Flat from the model's own flattening, by Push and (points) by NewPointFlatMaybeEmpty, plus Clone; special-float sweep (9 values x every ordinate position); larger structures (5..65 polygons/parts, lines of 200..2600 coordinates) in four layouts; every single-coordinate length mismatch (stride-1, stride+1, 0, nil) at every position. distinct_nontrivial = distinct (model, mode, mismatch) cases with at least one coordinate or one part",
 		Run:    c01Run,
 		Replay: func(c *engine.Ctx, kind string, raw json.RawMessage) { c01Exec(c, decodeCase[c01Case](raw)) },
 		Assumptions: []string{
@@ -47,6 +47,40 @@ func c01Run(c *engine.Ctx) {
 	ref.ForEachBase(geom.NoLayout, maxPolys, func(g *ref.G) {
 		if g.NumOrdinates() == 0 && !(g.Kind == ref.Point && g.C0 != nil) && !hasPresentPoint(g) {
 			bases = append(bases, g)
+		}
+	})
+	// larger structures: code paths that change behaviour beyond a few parts / rows / coordinates
+	var large []*ref.G
+	for _, l := range []geom.Layout{geom.XY, geom.XYZ, geom.XYZM, geom.Layout(5)} {
+		for _, np := range []int{5, 9, 17, 33, 65} {
+			var shape [][]int
+			for i := 0; i < np; i++ {
+				shape = append(shape, [][]int{{2, 1, 2}, {1}, {}, {0, 3}, {4}}[i%5])
+			}
+			large = append(large, ref.NewMultiPolygon(l, shape, ref.Counter()))
+			sizes := make([]int, np)
+			for i := range sizes {
+				sizes[i] = (i*3 + 1) % 5
+			}
+			large = append(large, ref.NewParts(ref.Polygon, l, sizes, ref.Counter()), ref.NewParts(ref.MultiLineString, l, sizes, ref.Counter()))
+			pat := make([]int, 3*np)
+			for i := range pat {
+				pat[i] = (i + 1) % 3
+			}
+			large = append(large, ref.NewMultiPoint(l, pat, ref.Counter()), ref.NewLine(ref.LineString, l, 40*np, ref.Counter()), ref.NewLine(ref.LinearRing, l, 7*np, ref.Counter()))
+		}
+	}
+	c.Note("large_models", len(large))
+	c.Parallel(len(large), func(i int) {
+		for _, mode := range []string{"setcoords", "flat", "push"} {
+			c01Exec(c, c01Case{G: large[i], Mode: mode})
+		}
+		nc := numCoords(large[i])
+		st := large[i].Layout.Stride()
+		for _, pos := range []int{0, nc / 2, nc - 1} {
+			for _, bad := range []int{st - 1, st + 1, -1} {
+				c01Exec(c, c01Case{G: large[i], Mode: "mismatch", Pos: pos, BadLen: bad})
+			}
 		}
 	})
 	c.Note("base_models", len(bases))
